@@ -556,7 +556,7 @@ func verifConcurrent(p vbase.Params, r *vbase.Result) {
 		}
 		// quiescence: everything added has either been handled or reported dropped (logical condition), with a watchdog
 		total := P * per
-		deadline := time.Now().Add(20 * time.Second)
+		deadline := time.Now().Add(120 * time.Second)
 		for {
 			hmu.Lock()
 			nh := len(order)
